@@ -958,6 +958,8 @@ func (r *c04RecvRun) run(nOps int, shutdownPhase bool) {
 	}
 }
 
+var c04ExtraReported int
+
 func TestVerifC04RecvStream(t *testing.T) {
 	l := evlog.Open("C04")
 	defer l.Close()
@@ -1018,7 +1020,15 @@ func TestVerifC04RecvStream(t *testing.T) {
 					c.Violation(r.sig, r.err, map[string]any{"batch": bi, "index": k, "cfg": cfg, "ops": r.ops})
 				}
 				for _, e := range r.extra {
-					c.Violation(e[0], e[1], map[string]any{"batch": bi, "index": k, "cfg": cfg, "ops": r.ops})
+					// a handful per process is enough (the log keeps at most 200 violation records per shard, and this
+					// one occurs in about 3 % of the histories)
+					if c04ExtraReported < 5 {
+						c04ExtraReported++
+						c.Violation(e[0], e[1], map[string]any{"batch": bi, "index": k, "cfg": cfg, "ops": r.ops})
+					}
+				}
+				if r.err == "" && r.n["max_stream_data_frames_zero"] > 0 && len(r.ops) < 60 {
+					c.Sample("recv-max-stream-data-frame-carrying-zero", map[string]any{"cfg": cfg, "ops": r.ops})
 				}
 			}
 		})
